@@ -102,9 +102,13 @@ type R struct {
 }
 
 func NewR(sc Scenario) *R {
-	return &R{res: Result{Idx: sc.Idx, Kind: sc.Kind, Verdict: Held, Obs: map[string]int64{}}}
+	r := &R{res: Result{Idx: sc.Idx, Kind: sc.Kind, Verdict: Held, Obs: map[string]int64{}}}
+	curMu.Lock()
+	curR = r
+	curMu.Unlock()
+	return r
 }
-var hangRe = regexp.MustCompile(`hang|dropped|lost-call|blocked|not-closed|blocks|never`)
+var hangRe = regexp.MustCompile(`hang|dropped|lost-call|blocked|not-closed|blocks|never|wedged|undetected`)
 var hangCount int64
 
 // ResetHangs is called at the start of every scenario.
@@ -112,6 +116,24 @@ func ResetHangs() { atomic.StoreInt64(&hangCount, 0) }
 
 // eff shortens grace-sized waits once two hang-type violations have been recorded in the
 // running scenario: the verdict is established, further full grace periods only cost time.
+// Eff is eff for callers outside this package (e.g. socket read deadlines).
+func Eff(d time.Duration) time.Duration { return eff(d) }
+
+var curMu sync.Mutex
+var curR *R
+
+// CurrentResult returns what the running scenario has recorded so far (used by the watchdog so that
+// violations already established are not lost when a scenario overruns).
+func CurrentResult() (Result, bool) {
+	curMu.Lock()
+	r := curR
+	curMu.Unlock()
+	if r == nil {
+		return Result{}, false
+	}
+	return r.Result(), true
+}
+
 func eff(d time.Duration) time.Duration {
 	if d >= Grace && atomic.LoadInt64(&hangCount) >= 2 {
 		return 300 * time.Millisecond
